@@ -170,6 +170,32 @@ func ssaLenIsLen(f *ssa.Function) bool {
 func upperBoundFromAccept(p *Program, f *ssa.Function, subject string) (int64, bool) {
 	paths, _, err := validatorPaths(f, p.Sizes)
 	if err != nil {
+		// the checks may sit in a loop-free helper shared by several validators: fold those in (a predicate with a
+		// loop, such as the all-ASCII test, stays a call)
+		g := p.viewKeeping(p.orig(f), func(callee *ssa.Function) bool {
+			for _, b := range callee.Blocks {
+				if blockReachFromSelf(b) {
+					return true
+				}
+			}
+			return false
+		})
+		paths, _, err = validatorPaths(g, p.Sizes)
+	} else if !anyAcceptBound(paths) {
+		g := p.viewKeeping(p.orig(f), func(callee *ssa.Function) bool {
+			for _, b := range callee.Blocks {
+				if blockReachFromSelf(b) {
+					return true
+				}
+			}
+			return false
+		})
+		if p2, _, e2 := validatorPaths(g, p.Sizes); e2 == nil {
+			paths = p2
+		}
+	}
+
+	if err != nil {
 		return 0, false
 	}
 	best := int64(-1)
@@ -273,6 +299,25 @@ func validateBounds(p *Program, V *ssa.Function) map[string]int64 {
 								set("cnt:"+fld.Name(), lim)
 							} else {
 								set("len:"+fld.Name(), lim)
+							}
+						}
+					}
+				}
+			}
+		}
+		// n > C for n ranging over a literal list of lengths of the receiver's fields (a variadic 'any of these is too
+		// long' helper folded in): the bound holds for every length in the list
+		if bo, ok := iff.Cond.(*ssa.BinOp); ok && (bo.Op == token.GTR || bo.Op == token.GEQ) {
+			if c, okc := constInt(bo.Y); okc {
+				if srcs := ifaceSources(bo.X); len(srcs) > 0 && !(len(srcs) == 1 && srcs[0] == bo.X) {
+					if errOnlyBlock(V, b.Succs[0]) && blockOnEveryAcceptPath(V, b) && visitsWholeList(bo.X) {
+						lim := c
+						if bo.Op == token.GEQ {
+							lim = c - 1
+						}
+						for _, src := range srcs {
+							if s, oks := subjectOf(src, recv); oks {
+								set(s, lim)
 							}
 						}
 					}
@@ -443,7 +488,10 @@ func dominatesAllAccepts(fn *ssa.Function, b *ssa.BasicBlock) bool {
 // callOnEveryAcceptPath: for a call inside a range loop, the loop head dominates all accept returns and the
 // loop can only be left by exhaustion or by the error edge; for a straight-line call, its block dominates accepts.
 func callOnEveryAcceptPath(fn *ssa.Function, c *ssa.Call) bool {
-	b := c.Block()
+	return blockOnEveryAcceptPath(fn, c.Block())
+}
+
+func blockOnEveryAcceptPath(fn *ssa.Function, b *ssa.BasicBlock) bool {
 	if dominatesAllAccepts(fn, b) {
 		return true
 	}
@@ -881,4 +929,77 @@ func hasValidateMethod(p *Program, t types.Type) bool {
 		}
 	}
 	return false
+}
+
+// visitsWholeList: v is list[i] with i the index of a loop that starts at the first element, advances by one and is
+// left (other than through the branch under test) only when i reaches len(list).
+func visitsWholeList(v ssa.Value) bool {
+	u, ok := v.(*ssa.UnOp)
+	if !ok || u.Op != token.MUL {
+		return false
+	}
+	ia, ok := u.X.(*ssa.IndexAddr)
+	if !ok || !isAscendingIndex(ia.Index) {
+		return false
+	}
+	// the loop head compares the index with len(list)
+	for _, b := range u.Block().Parent().Blocks {
+		iff, ok := b.Instrs[len(b.Instrs)-1].(*ssa.If)
+		if !ok {
+			continue
+		}
+		bo, ok := iff.Cond.(*ssa.BinOp)
+		if !ok || bo.Op != token.LSS || bo.X != ia.Index {
+			continue
+		}
+		if lc, ok := bo.Y.(*ssa.Call); ok {
+			if bi, ok := lc.Common().Value.(*ssa.Builtin); ok && bi.Name() == "len" && lc.Common().Args[0] == ia.X {
+				if b.Succs[0] == u.Block() || b.Succs[0].Dominates(u.Block()) {
+					return true
+				}
+			}
+		}
+	}
+	return false
+}
+
+// anyAcceptBound: some accept path carries a comparison of the subject with a constant (otherwise the checks are
+// probably in a helper).
+func anyAcceptBound(paths []vPath) bool {
+	for _, pa := range paths {
+		if !pa.accept {
+			continue
+		}
+		for _, a := range pa.atoms {
+			if strings.HasPrefix(a.R, "const:") && (strings.HasPrefix(a.L, "param:") || strings.HasPrefix(a.L, "len(param:")) {
+				return true
+			}
+		}
+	}
+	return false
+}
+
+// predicateView: a validator with the loop-free helpers it calls folded in (a predicate with a loop, such as the
+// all-ASCII test, stays a call): what the path enumeration of validatorPaths reads.
+func (p *Program) predicateView(f *ssa.Function) *ssa.Function {
+	if f == nil || f.Blocks == nil {
+		return f
+	}
+	calls := false
+	for _, c := range allCalls(f) {
+		if g := c.Common().StaticCallee(); g != nil && g.Blocks != nil && g.Pkg != nil && isModulePath(g.Pkg.Pkg.Path()) {
+			calls = true
+		}
+	}
+	if !calls {
+		return f
+	}
+	return p.viewKeeping(p.orig(f), func(callee *ssa.Function) bool {
+		for _, b := range callee.Blocks {
+			if blockReachFromSelf(b) {
+				return true
+			}
+		}
+		return false
+	})
 }
